@@ -8,6 +8,8 @@ Tie of the theorems of NxProps/C14.lean to the tree:
    attributes keep their defaults);
  * struct headers are never set by the harness: they follow from the transport's minor version (struct_header_auto);
  * unsupported methods, methods left at the generated stub, unknown method and protocol ids -> Core::NotImplemented;
+ * state must not leak between connections: sequences of connections with mixed minor versions sharing one Settings
+   object per side behave exactly like fresh pairs with fresh Settings, and the caller's Settings object is unchanged;
  * for every versioned structure: the revision byte raised and 1..16 bytes spliced into the length-prefixed body ->
    same fields, rest untouched (forward_compat); the generated obligations `rev_ascending_<Struct>` are the
    theorem's hypothesis.
@@ -30,7 +32,10 @@ def run(ctx):
     ctx.rule = ("every supported method of every generated module called through generated client -> RMCClient -> in-memory transport -> RMCClient -> generated "
                 "server with a recording implementation, under nex.version in {0, every gate, gate-1, 99999} x (minor version <3 / >=3, which decides the struct header) x pid size 4/8, "
                 "%s schema-directed value set(s) per (method, configuration); every unsupported / unimplemented / unknown method and an unknown protocol per module; "
-                "every versioned structure under every header-on configuration with %s. "
+                "every versioned structure under every header-on configuration with %s; "
+                "per module slice and protocol: sequences of 7 connections with mixed negotiated minor versions (4,2,4,0,3 plus two random) in which the server side, the client side, "
+                "or both pass ONE shared Settings object to every RMCClient, 3 structure-carrying calls per connection, each connection compared (wire bytes, arguments seen, results, "
+                "header flags) with a fresh pair with fresh Settings, and the shared Settings objects compared with their snapshot. "
                 "distinct non-trivial = distinct (module, method or structure, configuration, repetition or splice) cases whose oracle held"
                 % ("1" if quick else "4", "8 (revision, extra bytes) splices" if quick else "every higher revision up to 255 and every extra length 1..16"))
     envs = {}
@@ -90,6 +95,7 @@ def run(ctx):
     ctx.extra["modules"] = len(envs)
     ctx.extra["methods"] = sum(methods.values())
     ctx.extra["forward_compat_splices"] = fc_cases
+    ctx.extra["connection_sequence_steps"] = sum(c for t, c in ctx.tags.items() if t.startswith("seq:"))
     ctx.extra["versioned_structures"] = sum(len([s for s in e.versioned() if s["name"] in e.structs]) for e in envs.values())
     ctx.extra["disagreements"] = len(hard) + len(soft)
     ctx.assumptions.append("the PRUDP layer between the two RMCClient instances is replaced by a pair of in-memory queues (reliable in-order delivery is C01's property)")
